@@ -61,8 +61,88 @@ func jvKey(v gen.JV) string {
 		return "bF"
 	case "time":
 		return "t" + strconv.FormatInt(v.I, 10) + "z" + strconv.Itoa(v.Z)
+	case "list", "tuple", "struct":
+		parts := make([]string, len(v.L))
+		for i := range v.L {
+			parts[i] = jvKey(v.L[i])
+		}
+		return v.K[:1] + "[" + strings.Join(parts, ",") + "]"
+	case "null":
+		return "n"
 	}
 	return v.K[:1] + strconv.FormatInt(v.I, 10)
+}
+
+func composite(k string) bool { return k == "list" || k == "tuple" || k == "struct" }
+
+// cmpDeep mirrors octosql's value order (Value.Compare) on the generated values: scalars as model.CmpAny orders them;
+// lists, tuples and structs element by element, and when one is a prefix of the other the shorter one goes first.
+func cmpDeep(a, b gen.JV) int {
+	if a.K == b.K && composite(a.K) {
+		for i := 0; i < len(a.L) && i < len(b.L); i++ {
+			if c := cmpDeep(a.L[i], b.L[i]); c != 0 {
+				return c
+			}
+		}
+		switch {
+		case len(a.L) < len(b.L):
+			return -1
+		case len(a.L) > len(b.L):
+			return 1
+		}
+		return 0
+	}
+	return model.CmpAny(a, b)
+}
+
+// prefixGap: gap is 0 when a and b are decided by two differing scalars (or are equal); otherwise the difference of the
+// lengths at the place where one list is a strict prefix of the other. nested: that place is below the top level.
+func prefixGap(a, b gen.JV) (gap int, nested bool) {
+	if a.K != b.K || !composite(a.K) {
+		return 0, false
+	}
+	for i := 0; i < len(a.L) && i < len(b.L); i++ {
+		if cmpDeep(a.L[i], b.L[i]) != 0 {
+			g, _ := prefixGap(a.L[i], b.L[i])
+			return g, true
+		}
+	}
+	d := len(a.L) - len(b.L)
+	if d < 0 {
+		d = -d
+	}
+	return d, false
+}
+
+// aggregateOf: the aggregate of the multiset in (non-NULL values of one kind) computed from scratch.
+func aggregateOf(base string, distinct bool, in []gen.JV) gen.JV {
+	if len(in) == 0 || !composite(in[0].K) {
+		return model.AggregateAny(base, distinct, in)
+	}
+	if distinct {
+		var d []gen.JV
+		for _, v := range in {
+			dup := false
+			for _, o := range d {
+				if cmpDeep(v, o) == 0 {
+					dup = true
+				}
+			}
+			if !dup {
+				d = append(d, v)
+			}
+		}
+		in = d
+	}
+	switch base {
+	case "count":
+		return gen.Int(int64(len(in)))
+	case "array_agg":
+		sorted := append([]gen.JV{}, in...)
+		sort.SliceStable(sorted, func(i, j int) bool { return cmpDeep(sorted[i], sorted[j]) < 0 })
+		return gen.List(sorted...)
+	}
+	panic(fmt.Sprintf("C14: aggregate %s over %s", base, in[0].K))
 }
 
 func (c c14Case) key() string {
@@ -96,7 +176,7 @@ func eqVal(got, want gen.JV, tol float64) bool {
 			return true
 		}
 		return math.Abs(g-w) <= tol
-	case "list":
+	case "list", "tuple", "struct":
 		if len(got.L) != len(want.L) {
 			return false
 		}
@@ -124,6 +204,7 @@ func c14Prop(c c14Case) ev.Outcome {
 	var sumAbs float64
 	exact := true
 	retractionLeavingNonEmpty, multiplicity2, throughEmpty, tolUsed, cancellation := false, false, false, false, false
+	prefixPair1, prefixPair2, nestedPrefixPair2 := false, false, false
 	wasNonEmpty := false
 	for i, op := range c.Ops {
 		k := jvKey(op.V)
@@ -141,6 +222,18 @@ func c14Prop(c c14Case) ev.Outcome {
 			M = append(M[:idx:idx], M[idx+1:]...)
 			mult[k]--
 		} else {
+			if composite(op.V.K) {
+				for _, o := range M {
+					switch g, nested := prefixGap(o, op.V); {
+					case g >= 2 && nested:
+						nestedPrefixPair2 = true
+					case g >= 2:
+						prefixPair2 = true
+					case g == 1:
+						prefixPair1 = true
+					}
+				}
+			}
 			M = append(M, op.V)
 			mult[k]++
 			if mult[k] >= 2 {
@@ -166,7 +259,7 @@ func c14Prop(c c14Case) ev.Outcome {
 		}
 		gotV := agg.Trigger()
 		got := gen.FromOct(gotV)
-		want := model.AggregateAny(base, distinct, M)
+		want := aggregateOf(base, distinct, M)
 		tol := 0.0
 		if !exact && (base == "sum" || base == "avg") && want.K == "float" {
 			// rounding error of an incremental sum is bounded by eps * (sum of the magnitudes ever added); 1e-9 is generous
@@ -190,11 +283,27 @@ func c14Prop(c c14Case) ev.Outcome {
 	kind := "none"
 	if len(c.Ops) > 0 {
 		kind = c.Ops[0].V.K
+		for _, op := range c.Ops {
+			for _, e := range op.V.L {
+				if op.V.K == "list" && e.K == "list" {
+					kind = "list_of_lists"
+				}
+			}
+		}
 	}
 	o := ev.Outcome{Key: c.key(), Classes: []string{"agg_" + c.Agg + "_" + kind}}
 	o.NonTrivial = retractionLeavingNonEmpty && (!distinct || multiplicity2)
 	if throughEmpty {
 		o.Classes = append(o.Classes, "net_multiset_empty_then_refilled_or_ended")
+	}
+	if prefixPair2 {
+		o.Classes = append(o.Classes, "net_multiset_holds_strict_prefix_pair_lengths_differ_by_ge2")
+	}
+	if nestedPrefixPair2 {
+		o.Classes = append(o.Classes, "net_multiset_holds_nested_strict_prefix_pair_lengths_differ_by_ge2")
+	}
+	if prefixPair1 {
+		o.Classes = append(o.Classes, "net_multiset_holds_strict_prefix_pair_lengths_differ_by_1")
 	}
 	if multiplicity2 {
 		o.Classes = append(o.Classes, "value_with_multiplicity_ge2")
@@ -227,9 +336,12 @@ type c14Target struct {
 	Kind string
 }
 
-var anyKinds = []string{"int", "float", "dur", "time", "str", "bool"}
+var anyKinds = []string{"int", "float", "dur", "time", "str", "bool", "list"}
 
-func c14Targets() []c14Target {
+// kinds only the random part draws (no 3-value domain in the exhaustive part)
+var anyKindsRandomOnly = []string{"list_of_lists", "tuple", "struct"}
+
+func c14Targets(randomPart bool) []c14Target {
 	names := make([]string, 0, len(aggregates.Aggregates))
 	for n := range aggregates.Aggregates {
 		names = append(names, n)
@@ -241,6 +353,11 @@ func c14Targets() []c14Target {
 			if d.TypeFn != nil || d.ArgumentType.TypeID == octosql.TypeIDAny {
 				for _, k := range anyKinds {
 					out = append(out, c14Target{n, i, k})
+				}
+				if randomPart {
+					for _, k := range anyKindsRandomOnly {
+						out = append(out, c14Target{n, i, k})
+					}
 				}
 				continue
 			}
@@ -273,6 +390,8 @@ var c14Small = map[string][]gen.JV{
 	"time":  {gen.Time(-1e9), gen.Time(1500000000e9), gen.Time(1500000000e9 + 5e8)},
 	"str":   {gen.Str(""), gen.Str("a"), gen.Str("b")},
 	"bool":  {gen.Bool(false), gen.Bool(true)}, // only two booleans exist
+	// prefix-related lists: lengths differing by 2, 3 and 1
+	"list":  {gen.List(), gen.List(gen.Int(1), gen.Int(2)), gen.List(gen.Int(1), gen.Int(2), gen.Int(3))},
 }
 
 const c14ExhaustiveLen = 6
@@ -321,6 +440,24 @@ var (
 	poolStr        = []string{"", "a", "b", "ab", "A", "é", "a b"}
 )
 
+func ints(xs ...int64) gen.JV {
+	l := make([]gen.JV, len(xs))
+	for i, x := range xs {
+		l[i] = gen.Int(x)
+	}
+	return gen.JV{K: "list", L: l}
+}
+
+// composite pools: prefix-related pairs are frequent (lengths differing by 1, by 2 and more; nested)
+var (
+	poolList       = []gen.JV{ints(), ints(1), ints(1, 2), ints(1, 2, 3), ints(1, 3), ints(1, 2, 3, 4), ints(2), ints(0), ints(1, 1), ints(1, 1, 1), ints(-1), ints(1, 2, 2)}
+	poolListOfList = []gen.JV{gen.List(), gen.List(ints()), gen.List(ints(1)), gen.List(ints(1, 2, 3)), gen.List(ints(1), ints(2)), gen.List(ints(1), ints(1, 2, 3)),
+		gen.List(ints(1), ints(1)), gen.List(ints(1, 2)), gen.List(ints(1), ints(1), ints(1)), gen.List(ints(), ints(), ints())}
+	// one static type each: (Int, String) tuples; {a Int, b List<Int>} structs
+	poolTuple  = []gen.JV{gen.Tuple(gen.Int(0), gen.Str("")), gen.Tuple(gen.Int(1), gen.Str("a")), gen.Tuple(gen.Int(1), gen.Str("b")), gen.Tuple(gen.Int(2), gen.Str("a")), gen.Tuple(gen.Int(-1), gen.Str("ab")), gen.Tuple(gen.Int(1), gen.Str(""))}
+	poolStruct = []gen.JV{gen.Struct(gen.Int(1), ints()), gen.Struct(gen.Int(1), ints(1)), gen.Struct(gen.Int(1), ints(1, 2, 3)), gen.Struct(gen.Int(2), ints(1)), gen.Struct(gen.Int(1), ints(1, 2)), gen.Struct(gen.Int(0), ints(1, 2, 3, 4))}
+)
+
 func c14Domain(t *rapid.T, kind string) []gen.JV {
 	n := rapid.IntRange(1, 5).Draw(t, "domain_size")
 	dom := make([]gen.JV, n)
@@ -351,6 +488,14 @@ func c14Domain(t *rapid.T, kind string) []gen.JV {
 			dom[i] = gen.Str(rapid.SampledFrom(poolStr).Draw(t, "v"))
 		case "bool":
 			dom[i] = gen.Bool(rapid.Bool().Draw(t, "v"))
+		case "list":
+			dom[i] = rapid.SampledFrom(poolList).Draw(t, "v")
+		case "list_of_lists":
+			dom[i] = rapid.SampledFrom(poolListOfList).Draw(t, "v")
+		case "tuple":
+			dom[i] = rapid.SampledFrom(poolTuple).Draw(t, "v")
+		case "struct":
+			dom[i] = rapid.SampledFrom(poolStruct).Draw(t, "v")
 		}
 	}
 	return dom
@@ -360,13 +505,16 @@ func TestC14(t *testing.T) {
 	r := ev.New("C14", "exploration",
 		"an aggregate instance from the real descriptor table is driven like the group-by nodes drive it (Add(retraction, non-NULL value); Trigger() only while the net multiset M is non-empty); "+
 			"after every step with M non-empty Trigger() must equal the aggregate of M computed from scratch (count, wrapping sum, avg truncating toward zero for Int/Duration, min, max, array_agg ascending; DISTINCT variants over the set of distinct values of M). "+
-			"histories_exhaustive: for every aggregate name x overload x input kind (Int, Float, Duration, Time for max; Int/Float/Duration/Time/String/Boolean for count and array_agg) all valid histories of 6 steps over a 3-value domain, every prefix checked, i.e. all valid histories of length <= 6; "+
-			"histories_random: up to 40 steps over a drawn sub-domain (1-5 values) of an edge pool (ints incl. MinInt64/MaxInt64, dyadic floats k/4 compared exactly, non-dyadic floats with tolerance 1e-9*sum|x added so far|, durations incl. Min/Max, zoned times). "+
+			"histories_exhaustive: for every aggregate name x overload x input kind (Int, Float, Duration, Time for max; Int/Float/Duration/Time/String/Boolean/List<Int> for count and array_agg and their DISTINCT variants; the list domain is {[], [1,2], [1,2,3]}: each list a strict prefix of the next, lengths differing by 2, 3 and 1) all valid histories of 6 steps over a 3-value domain, every prefix checked, i.e. all valid histories of length <= 6; "+
+			"histories_random: up to 40 steps over a drawn sub-domain (1-5 values) of an edge pool (ints incl. MinInt64/MaxInt64, dyadic floats k/4 compared exactly, non-dyadic floats with tolerance 1e-9*sum|x added so far|, durations incl. Min/Max, zoned times; for the aggregates that take any type also lists of ints and lists of lists with many prefix-related pairs, (Int, String) tuples and {Int, List<Int>} structs; composite values are ordered as Value.Compare documents: element by element, a strict prefix first). "+
+			"through_group_by: such histories as a changelog table mem.t (k Int, x <kind>|NULL; 1-3 keys, NULL inputs, domains {v,-v,0} so that non-empty groups summing to zero are frequent) under SELECT [t.k,] agg(t.x), ... FROM mem.t t [GROUP BY t.k] [TRIGGER COUNTING n | ON END OF STREAM | both], 1-3 aggregates of those that accept the kind, through parser, typechecker, optimizer (on/off) and materialiser, i.e. through nodes.SimpleGroupBy and nodes.CustomTriggerGroupBy which keep the 'anything aggregated yet' bookkeeping; for every group whose net multiset of non-NULL x is non-empty the consolidated output (records snapshotted when emitted) must hold exactly one row of the group and every aggregate in it must equal the aggregate of the net multiset; nothing is asserted about groups whose net multiset is empty. "+
 			"non-trivial: the history contains a retraction after which M is non-empty, and for DISTINCT variants also a value that reached multiplicity >= 2",
 		"a retraction only ever names a value currently present in M (the changelog contract of every upstream operator)",
 		"NaN and +-Inf inputs are not generated: Inf-Inf / NaN make an incremental float sum unrecoverable, which the statement's 'within rounding error' does not decide")
-	targets := c14Targets()
+	targets := c14Targets(false)
+	randomTargets := c14Targets(true)
 	r.SetExtra("targets", len(targets))
+	r.SetExtra("targets_random_part", len(randomTargets))
 	var perDomain int
 	c14Histories(c14Small["int"], func([]c14Op) bool { perDomain++; return true })
 	r.SetExtra("histories_of_6_steps_per_3_value_domain", perDomain)
@@ -383,7 +531,7 @@ func TestC14(t *testing.T) {
 	}, c14Prop)
 
 	ev.Check(t, r, "histories_random", ev.N(120000, 3000000), func(t *rapid.T) c14Case {
-		tg := rapid.SampledFrom(targets).Draw(t, "target")
+		tg := rapid.SampledFrom(randomTargets).Draw(t, "target")
 		dom := c14Domain(t, tg.Kind)
 		n := rapid.IntRange(1, 40).Draw(t, "len")
 		addBias := rapid.IntRange(4, 8).Draw(t, "add_bias")
@@ -402,4 +550,6 @@ func TestC14(t *testing.T) {
 		}
 		return c14Case{Agg: tg.Agg, Ov: tg.Ov, Ops: ops}
 	}, c14Prop)
+
+	ev.Check(t, r, "through_group_by", ev.N(20000, 500000), c14GBGen, c14GBProp)
 }
